@@ -2,6 +2,7 @@ package main
 
 import (
 	"go/ast"
+	"go/token"
 	"go/types"
 	"strings"
 )
@@ -112,7 +113,7 @@ func (c *Ctx) ruleNoStateCopies(rule string) {
 					} else if isState(t) {
 						// a fresh value stored over an existing object (*p = T{}, x.f = T{}): the atomics / locks of a
 						// published object are overwritten with plain stores
-						if _, local := ast.Unparen(x.Lhs[i]).(*ast.Ident); !local {
+						if _, local := ast.Unparen(x.Lhs[i]).(*ast.Ident); !local && !ownLocalStorage(f, x.Lhs[i], x.Pos()) {
 							c.Rep.fail(rule, short, "whole-struct overwrite of "+qualTypeName(t), c.P.pos(x),
 								short+" overwrites an existing "+types.TypeString(t, nil)+" as a whole ("+types.ExprString(x.Lhs[i])+" = ...): its atomic counters / locks are written with plain, non-atomic stores while other goroutines use them")
 						}
@@ -178,4 +179,74 @@ func (c *Ctx) ruleNoStateCopies(rule string) {
 	for i := 0; i < n && i < 40; i++ {
 		c.Rep.ok(rule, "copy site", "", "no by-value copy", true)
 	}
+}
+
+// ownLocalStorage: lhs is a field path v.f.g… into a struct-valued local v of f (no pointer is followed), and v's
+// address has not been taken and no closure has captured it before pos: the storage written is the function's own,
+// still unpublished value (a constructor filling in the value it is about to return).
+func ownLocalStorage(f *Func, lhs ast.Expr, pos token.Pos) bool {
+	info := f.Info()
+	e := ast.Unparen(lhs)
+	for {
+		sel, ok := e.(*ast.SelectorExpr)
+		if !ok {
+			break
+		}
+		s, ok := info.Selections[sel]
+		if !ok || s.Indirect() {
+			return false
+		}
+		if _, isPtr := info.TypeOf(sel.X).Underlying().(*types.Pointer); isPtr {
+			return false
+		}
+		e = ast.Unparen(sel.X)
+	}
+	id, ok := e.(*ast.Ident)
+	if !ok {
+		return false
+	}
+	v, ok := info.ObjectOf(id).(*types.Var)
+	if !ok || v.IsField() || v.Pkg() == nil || v.Parent() == v.Pkg().Scope() {
+		return false
+	}
+	if _, isStruct := v.Type().Underlying().(*types.Struct); !isStruct {
+		return false
+	}
+	// declared in this function's body (not a parameter or a captured variable)
+	if v.Pos() < f.Body.Pos() || v.Pos() > f.Body.End() {
+		return false
+	}
+	escaped := false
+	ast.Inspect(f.Body, func(n ast.Node) bool {
+		if n == nil || n.Pos() >= pos {
+			return false
+		}
+		switch x := n.(type) {
+		case *ast.UnaryExpr:
+			if x.Op == token.AND && rootIdent(info, x.X) == v {
+				escaped = true
+			}
+		case *ast.FuncLit:
+			ast.Inspect(x.Body, func(m ast.Node) bool {
+				if mid, ok := m.(*ast.Ident); ok && info.ObjectOf(mid) == v {
+					escaped = true
+				}
+				return true
+			})
+			return false
+		case *ast.CallExpr:
+			// a pointer-receiver method call takes the address implicitly
+			if sel, ok := x.Fun.(*ast.SelectorExpr); ok {
+				if s, ok := info.Selections[sel]; ok && s.Kind() == types.MethodVal && rootIdent(info, sel.X) == v {
+					if sig, ok := s.Obj().Type().(*types.Signature); ok && sig.Recv() != nil {
+						if _, isPtr := sig.Recv().Type().(*types.Pointer); isPtr {
+							escaped = true
+						}
+					}
+				}
+			}
+		}
+		return true
+	})
+	return !escaped
 }
